@@ -29,7 +29,7 @@ CHECKS = {
 WF = "Trusted base: Go runtime (scheduler, race detector, deadlock detector), the harness's recording reader and registry wrappers (internal/mon), the reference decision rule (internal/oracle). randomness.TestMethodArr is the seam for runner stubs; no hook is compiled into /repo. Schedules covered are those produced by the stated GOMAXPROCS/taskset/delay plans; the evidence counts distinct ones."
 CHECKS.update({
  "C07": ("exploration", "runtime monitor: recorded sample/runner history + independent decision-rule model",
-         "The three sequential workflows run on streams that encode a chosen s x items result matrix (stub runners at the registry seam; their second statistics P2/Q2 are chosen independently and must not influence the verdict) covering every pass count for every item and the uniformity boundary on both sides, (including the float64 neighbours of the bin edges) plus real-runner runs, history chains (a failing/faulting/Fast run first, then an accepted stream in the same process, shuffled order) and device/pipe sources; verdict, error/verdict consistency, named item, sample splitting (history checker) and tail independence are decided per run.", WF, "4/C07"),
+         "The three sequential workflows run on streams that encode a chosen s x items result matrix (stub runners at the registry seam; their second statistics P2/Q2 are chosen independently and must not influence the verdict) covering every pass count for every item and the uniformity boundary on both sides, (including the float64 neighbours of the bin edges) plus real-runner runs, history chains (a failing/faulting/Fast run first, then an accepted stream in the same process, shuffled order), exact-length streams whose last bytes arrive with io.EOF, and device/pipe sources; verdict, error/verdict consistency, named item, sample splitting (history checker) and tail independence are decided per run.", WF, "4/C07"),
  "C08": ("exploration", "runtime monitor: differential history check under schedule perturbation + Go race detector",
          "Each Fast workflow is run repeatedly on verdict-sensitive streams under seeded delays in Read/runners, GOMAXPROCS 1..16 and 1/2/3/16 workers (taskset) and compared with the sequential run on the same bytes; every judged sample must be one stream chunk judged once by the expected items; also with stalling sources (1..150 empty reads; one 10 s stall), a slow source, a source that runs a Fast detection of its own inside Read, several Fast detections at the same time in one process (plain and -race builds), seekable reader types at non-zero positions and history pre-steps; a share of the runs is executed in a -race build and DATA RACE reports are violations.", WF, "4/C08"),
  "C09": ("fault_enumeration", "runtime monitor: fault injection at the source + Go deadlock detector + goroutine census",
@@ -37,7 +37,7 @@ CHECKS.update({
  "C10": ("exploration", "runtime monitor: exactly-once / no-stale sample history checker over read-size plans",
          "Each workflow is run on the same bytes under whole, 1-byte, prime, random and boundary-straddling read plans; the history checker demands that every judged sample is exactly one chunk of consecutive fresh stream bytes, judged once; verdict and named item must agree across plans, also when the final Read returns data together with io.EOF, through bytes.Reader/os.File/bufio/LimitedReader at non-zero start positions, and for single-shot requests up to 2^25+ bytes (2^30+4096 thorough); Fast variants also under delay plans and -race.", WF, "4/C10"),
  "C14": ("exploration", "runtime monitor: end-to-end verdict observation on degenerate sources (child process per batch)",
-         "All 256 stuck-at streams and 200+ short-cycle streams (seeded and adversarial period contents) through the real periodic workflows, a rotating subset (all in thorough) through the 10^6-bit workflows, SingleDetect on all-zero/all-one at every length 16..4096 and at 2*10^8 / 2^28 bytes (2^32 and 2^32+2^27 thorough), stuck-at data behind an accepted prefix of seekable readers, and a 32-bit build of the harness for the small scenarios: must return, reject, and carry an error; panics in worker goroutines are attributed by the child-process protocol.", WF, "4/C14"),
+         "All 256 stuck-at streams and 200+ short-cycle streams (seeded and adversarial period contents) through the real periodic workflows, a rotating subset (all in thorough) through the 10^6-bit workflows, SingleDetect on all-zero/all-one at every length 16..4096 and at 2*10^8 / 2^28 bytes (2^32 and 2^32+2^27 thorough), stuck-at data behind an accepted prefix of seekable readers and after a detection on a healthy source in the same process, and a 32-bit build of the harness for the small scenarios: must return, reject, and carry an error; panics in worker goroutines are attributed by the child-process protocol.", WF, "4/C14"),
 })
 
 CHECKS.update({
@@ -56,9 +56,9 @@ CHECKS.update({
 TOOLS = "Trusted base: Go toolchain (build, race detector, deadlock detector), strace/taskset as perturbation, the library's own functions as the reference for report values (C01-C05 decide those), the header-label parser in the harness. The only in-package instrumentation is /verif/overlay/rddetector/zz_verif_test.go injected with go test -overlay (tag verif); /repo is never written."
 CHECKS.update({
  "C13": ("exploration", "runtime monitor: exactly-once row checker + label-driven column oracle over real reports",
-         "Reports produced by the built rddetector binary (s in {1,2,7,40}, nested and suffix-named dirs, .dat, decoys, duplicate and hostile file names including names that are not valid UTF-8, -n 1..64, flag order/spelling, GOMAXPROCS 1/4/16, four process environments, strace-delayed report writes, -race build) and by the three worker functions driven in-package on real channels are checked: termination, header, one row per sample file, column count, every value against the library call named by that column's label.", TOOLS, "4/C13"),
+         "Reports produced by the built rddetector binary (s in {1,2,7,40}, nested and suffix-named dirs, .dat, decoys, duplicate and hostile file names including names that are not valid UTF-8, -n 1..64, flag order/spelling, GOMAXPROCS 1/4/16, four process environments, strace-delayed report writes, a low open-file limit, -race build) and by the three worker functions driven in-package on real channels are checked: termination, header, one row per sample file, column count, every value against the library call named by that column's label.", TOOLS, "4/C13"),
  "C20": ("exploration", "runtime monitor: file-system post-state checker",
-         "The built rdgen is run in fresh scratch directories over s, n, -o shapes (relative, nested, absolute, pre-populated, trailing slash, %, spaces, unicode, invalid UTF-8, dash, symlinked, re-used by an earlier run), CPU counts (taskset), GOMAXPROCS, four process environments, strace delays and a -race build; the post-state must be exactly the requested files of the requested size with pairwise different contents inside the requested directory and nothing elsewhere; rddetector must accept the directory as s samples of n bits for the supported sizes.", TOOLS, "4/C20"),
+         "The built rdgen is run in fresh scratch directories over s, n, -o shapes (relative, nested, absolute, pre-populated, trailing slash, %, spaces, unicode, invalid UTF-8, dash, symlinked, re-used by an earlier run), CPU counts (taskset), GOMAXPROCS, four process environments, open-file limits below the sample count, strace delays and a -race build; the post-state must be exactly the requested files of the requested size with pairwise different contents inside the requested directory and nothing elsewhere; rddetector must accept the directory as s samples of n bits for the supported sizes.", TOOLS, "4/C20"),
 })
 
 PENDING = {
